@@ -72,3 +72,20 @@ pub fn idref(args: &[&str]) -> String {
         show_bytes(b.id().as_bytes())
     )
 }
+
+/// SRREF x<administrative record bytes> -> OK x<refbundle()> of the decoded status report | OTHER | ERR
+pub fn srref(args: &[&str]) -> String {
+    match args {
+        [t] => match get_bytes(t) {
+            Some(b) => match serde_cbor::from_slice::<bp7::administrative_record::AdministrativeRecord>(&b) {
+                Ok(bp7::administrative_record::AdministrativeRecord::BundleStatusReport(sr)) => {
+                    format!("OK {}", show_bytes(sr.refbundle().as_bytes()))
+                }
+                Ok(_) => "OTHER".into(),
+                Err(_) => "ERR".into(),
+            },
+            None => "BADCASE".into(),
+        },
+        _ => "BADCASE".into(),
+    }
+}
